@@ -66,7 +66,7 @@ func genC22(seed int64, tier string, emit func(run.Case)) {
 	r := gen.New(seed*7919 + 22)
 	nd, ne := 300, 30
 	if tier == "thorough" {
-		nd, ne = 12000, 1200
+		nd, ne = 6000, 600
 	}
 	id := 0
 	for _, eng := range []string{"dagre", "elk"} {
@@ -96,6 +96,9 @@ type c22Cell struct {
 	//   outside icon: out = MAX_ICON_SIZE+PADDING (GetMargin reserves the maximal icon size, the
 	//     drawn icon can be smaller)
 	in, out float64
+	// an outside label / icon that is larger than the cell's natural size (the size after
+	// SetDimensions, before the grid stretches it) in the direction it runs along
+	oversized bool
 }
 
 func execC22(c run.Case) (res run.Result) {
@@ -131,6 +134,7 @@ func execC22(c run.Case) (res run.Result) {
 		}
 	}
 	judged := 0
+	natural := c21PreLayout(in.Text) // AbsID -> size after SetDimensions (no layout involved)
 	for _, gr := range grids {
 		// a grid inside a sequence diagram etc. is still a grid; nothing to exclude
 		var cells []c22Cell
@@ -157,6 +161,23 @@ func execC22(c run.Case) (res run.Result) {
 				}
 			}
 			cell.slot, cell.plain = layUnion(parts), len(parts) == 1
+			if nat, ok := natural[ch.AbsID()]; ok {
+				over := func(pos string, w, h float64) bool {
+					switch {
+					case strings.HasPrefix(pos, "OUTSIDE_TOP"), strings.HasPrefix(pos, "OUTSIDE_BOTTOM"):
+						return w+label.PADDING > nat[0]
+					case strings.HasPrefix(pos, "OUTSIDE_LEFT"), strings.HasPrefix(pos, "OUTSIDE_RIGHT"):
+						return h+label.PADDING > nat[1]
+					}
+					return false
+				}
+				if s.Label != "" && over(s.LabelPosition, float64(s.LabelWidth), float64(s.LabelHeight)) {
+					cell.oversized = true
+				}
+				if s.Icon != nil && s.Type != d2target.ShapeImage && over(s.IconPosition, d2target.MAX_ICON_SIZE, d2target.MAX_ICON_SIZE) {
+					cell.oversized = true
+				}
+			}
 			cells = append(cells, cell)
 		}
 		if missing {
@@ -229,11 +250,11 @@ func c22Judge(res *run.Result, gr *d2graph.Object, cont *d2target.Shape, cells [
 			}
 		}
 		for _, c := range cs {
-			// an outside part that overflows the cell's own box sideways (label wider than the
-			// box above/below it, taller than the box beside it): the grid's margin bookkeeping
-			// (sizeForOutsideLabels / revertAdjustments) is approximate for these
-			if c.slot.W > c.box.W+1 && c.slot.H > c.box.H+1 {
-				t = "cell-with-outside-part-overflowing-its-box"
+			// an outside label wider (above/below) or taller (beside) than the cell's natural size:
+			// the grid's margin bookkeeping (sizeForOutsideLabels / revertAdjustments) is
+			// approximate for these (known finding F-C22-outside-label-regrow)
+			if c.oversized {
+				t = "outside-label-larger-than-cell-natural-size"
 			}
 		}
 		return t
@@ -246,7 +267,7 @@ func c22Judge(res *run.Result, gr *d2graph.Object, cont *d2target.Shape, cells [
 	for i := 0; i < n; i++ {
 		for j := i + 1; j < n; j++ {
 			if w, h := cells[i].box.Overlap(cells[j].box); w > 1 && h > 1 {
-				res.Viol("C22.overlap", "C22.overlap:"+mode+":"+trig(cells[i], cells[j]), fmt.Sprintf("%s: cells %q %v and %q %v overlap by %gx%g", ctx(), cells[i].id, cells[i].box, cells[j].id, cells[j].box, w, h))
+				res.Viol("C22.overlap", "C22.overlap:"+trig(cells[i], cells[j])+":"+mode, fmt.Sprintf("%s: cells %q %v and %q %v overlap by %gx%g", ctx(), cells[i].id, cells[i].box, cells[j].id, cells[j].box, w, h))
 				i = n
 				break
 			}
@@ -257,7 +278,7 @@ func c22Judge(res *run.Result, gr *d2graph.Object, cont *d2target.Shape, cells [
 		cb := layShapeRect(cont)
 		for _, c := range cells {
 			if !cb.ContainsRect(c.box, 1) {
-				res.Viol("C22.outside-container", "C22.outside-container:"+mode+":"+trig(c), fmt.Sprintf("%s: cell %q %v is not inside the container %v", ctx(), c.id, c.box, cb))
+				res.Viol("C22.outside-container", "C22.outside-container:"+trig(c)+":"+mode, fmt.Sprintf("%s: cell %q %v is not inside the container %v", ctx(), c.id, c.box, cb))
 				break
 			}
 		}
@@ -334,7 +355,7 @@ func c22Judge(res *run.Result, gr *d2graph.Object, cont *d2target.Shape, cells [
 		}
 		lines = append(lines, cur)
 		if len(lines) != want {
-			res.Viol("C22.order", "C22.order:dynamic:line-count:"+trig(cells...), fmt.Sprintf("%s: the declaration sequence forms %d lines, expected %d", ctx(), len(lines), want))
+			res.Viol("C22.order", "C22.order:"+trig(cells...)+":dynamic:line-count", fmt.Sprintf("%s: the declaration sequence forms %d lines, expected %d", ctx(), len(lines), want))
 			return
 		}
 	}
@@ -347,7 +368,7 @@ func c22Judge(res *run.Result, gr *d2graph.Object, cont *d2target.Shape, cells [
 			a, _ := across(ln[k].slot)
 			common = meet(common, startIv(ln[k], a))
 			if common.lo > common.hi {
-				res.Viol("C22.order", "C22.order:"+mode+":line-start:"+trig(ln...), fmt.Sprintf("%s: cell %q (slot %v) does not start where the preceding cells of its line %d start (cell %q slot %v)", ctx(), ln[k].id, ln[k].slot, li, ln[0].id, ln[0].slot))
+				res.Viol("C22.order", "C22.order:"+trig(ln...)+":"+mode+":line-start", fmt.Sprintf("%s: cell %q (slot %v) does not start where the preceding cells of its line %d start (cell %q slot %v)", ctx(), ln[k].id, ln[k].slot, li, ln[0].id, ln[0].slot))
 				return
 			}
 			_, pe := along(ln[k-1].slot)
@@ -356,15 +377,15 @@ func c22Judge(res *run.Result, gr *d2graph.Object, cont *d2target.Shape, cells [
 			pair := trig(ln[k-1], ln[k])
 			switch {
 			case g.hi < 0:
-				res.Viol("C22.order", "C22.order:"+mode+":along-line:"+pair, fmt.Sprintf("%s: cell %q (slot %v) is not after its predecessor %q (slot %v) in line %d", ctx(), ln[k].id, ln[k].slot, ln[k-1].id, ln[k-1].slot, li))
+				res.Viol("C22.order", "C22.order:"+pair+":"+mode+":along-line", fmt.Sprintf("%s: cell %q (slot %v) is not after its predecessor %q (slot %v) in line %d", ctx(), ln[k].id, ln[k].slot, ln[k-1].id, ln[k-1].slot, li))
 				return
 			case g.hi < gapAlong:
-				res.Viol("C22.gap", "C22.gap:"+mode+":along-line-too-small:"+pair, fmt.Sprintf("%s: gap %g between %q (slot %v) and %q (slot %v) is below the configured %g", ctx(), s-pe, ln[k-1].id, ln[k-1].slot, ln[k].id, ln[k].slot, gapAlong))
+				res.Viol("C22.gap", "C22.gap:"+pair+":"+mode+":along-line-too-small", fmt.Sprintf("%s: gap %g between %q (slot %v) and %q (slot %v) is below the configured %g", ctx(), s-pe, ln[k-1].id, ln[k-1].slot, ln[k].id, ln[k].slot, gapAlong))
 				return
 			case g.lo > gapAlong && ln[k].plain && ln[k-1].plain:
 				// only for plain cells: with outside labels d2 may reserve more than is drawn
 				// (sizeForOutsideLabels recomputes the margin before it re-grows the box)
-				res.Viol("C22.gap", "C22.gap:"+mode+":along-line-too-large:"+pair, fmt.Sprintf("%s: gap %g between %q (slot %v) and %q (slot %v) exceeds the configured %g", ctx(), s-pe, ln[k-1].id, ln[k-1].slot, ln[k].id, ln[k].slot, gapAlong))
+				res.Viol("C22.gap", "C22.gap:"+pair+":"+mode+":along-line-too-large", fmt.Sprintf("%s: gap %g between %q (slot %v) and %q (slot %v) exceeds the configured %g", ctx(), s-pe, ln[k-1].id, ln[k-1].slot, ln[k].id, ln[k].slot, gapAlong))
 				return
 			}
 			if ln[k].plain && ln[k-1].plain {
@@ -395,13 +416,13 @@ func c22Judge(res *run.Result, gr *d2graph.Object, cont *d2target.Shape, cells [
 		all := append(append([]c22Cell{}, lines[li-1]...), lines[li]...)
 		switch {
 		case g.hi < 0:
-			res.Viol("C22.order", "C22.order:"+mode+":across-lines:"+trig(all...), fmt.Sprintf("%s: line %d starts in [%g,%g], before line %d ends in [%g,%g]", ctx(), li, next.lo, next.hi, li-1, prev.lo, prev.hi))
+			res.Viol("C22.order", "C22.order:"+trig(all...)+":"+mode+":across-lines", fmt.Sprintf("%s: line %d starts in [%g,%g], before line %d ends in [%g,%g]", ctx(), li, next.lo, next.hi, li-1, prev.lo, prev.hi))
 			return
 		case g.hi < gapAcross:
-			res.Viol("C22.gap", "C22.gap:"+mode+":across-lines-too-small:"+trig(all...), fmt.Sprintf("%s: gap between line %d (ends in [%g,%g]) and line %d (starts in [%g,%g]) is below the configured %g", ctx(), li-1, prev.lo, prev.hi, li, next.lo, next.hi, gapAcross))
+			res.Viol("C22.gap", "C22.gap:"+trig(all...)+":"+mode+":across-lines-too-small", fmt.Sprintf("%s: gap between line %d (ends in [%g,%g]) and line %d (starts in [%g,%g]) is below the configured %g", ctx(), li-1, prev.lo, prev.hi, li, next.lo, next.hi, gapAcross))
 			return
 		case g.lo > gapAcross && allPlain:
-			res.Viol("C22.gap", "C22.gap:"+mode+":across-lines-too-large:"+trig(all...), fmt.Sprintf("%s: gap between line %d (ends in [%g,%g]) and line %d (starts in [%g,%g]) exceeds the configured %g", ctx(), li-1, prev.lo, prev.hi, li, next.lo, next.hi, gapAcross))
+			res.Viol("C22.gap", "C22.gap:"+trig(all...)+":"+mode+":across-lines-too-large", fmt.Sprintf("%s: gap between line %d (ends in [%g,%g]) and line %d (starts in [%g,%g]) exceeds the configured %g", ctx(), li-1, prev.lo, prev.hi, li, next.lo, next.hi, gapAcross))
 			return
 		}
 		if allPlain {
@@ -420,7 +441,7 @@ func c22Judge(res *run.Result, gr *d2graph.Object, cont *d2target.Shape, cells [
 				_, e := across(c.slot)
 				common = meet(common, endIv(c, e))
 				if common.lo > common.hi {
-					res.Viol("C22.align", "C22.align:"+dirName+":within-line:"+trig(ln...), fmt.Sprintf("%s: cell %q (slot %v) of line %d does not end (across the line) where the preceding cells end (cell %q slot %v)", ctx(), c.id, c.slot, li, ln[0].id, ln[0].slot))
+					res.Viol("C22.align", "C22.align:"+trig(ln...)+":"+dirName+":within-line", fmt.Sprintf("%s: cell %q (slot %v) of line %d does not end (across the line) where the preceding cells end (cell %q slot %v)", ctx(), c.id, c.slot, li, ln[0].id, ln[0].slot))
 					return
 				}
 			}
@@ -443,7 +464,7 @@ func c22Judge(res *run.Result, gr *d2graph.Object, cont *d2target.Shape, cells [
 				s, e := along(c.slot)
 				cs, ce = meet(cs, startIv(c, s)), meet(ce, endIv(c, e))
 				if cs.lo > cs.hi || ce.lo > ce.hi {
-					res.Viol("C22.align", "C22.align:"+dirName+":across-lines:"+trig(col...), fmt.Sprintf("%s: cell %q (slot %v) at position %d of line %d is not aligned (start/size along the line) with the cells before it at that position (first: %q slot %v)", ctx(), c.id, c.slot, j, li, col[0].id, col[0].slot))
+					res.Viol("C22.align", "C22.align:"+trig(col...)+":"+dirName+":across-lines", fmt.Sprintf("%s: cell %q (slot %v) at position %d of line %d is not aligned (start/size along the line) with the cells before it at that position (first: %q slot %v)", ctx(), c.id, c.slot, j, li, col[0].id, col[0].slot))
 					return
 				}
 			}
